@@ -50,6 +50,8 @@ EnsureAll(f, cs, lvl) == IF cs = <<>> THEN f ELSE EnsureAll(Ensure(f, <<Head(cs)
 CoordFn(fn, i, c, n) == CASE fn = "shift"   -> c + 2
                           [] fn = "reverse" -> 10 - c
                           [] fn = "double"  -> 2 * c
+                          [] fn = "mirror"  -> 0 - c            \* negative coordinates (mirroring / re-centring a rank)
+                          [] fn = "recentre" -> c - 1
                           [] OTHER          -> c
 \* payload update callbacks value -> value  (all return boxed legal payloads)
 ValFn(fn, v) == CASE fn = "inc" -> v + 1 [] fn = "zero" -> 0 [] fn = "dbl" -> 2 * v [] OTHER -> v
